@@ -36,6 +36,7 @@ type Program struct {
 	known       *KnownFindings
 	tensorPkg   *types.Package
 	loadSecs    float64
+	lemmas      []*SmtLemma
 }
 
 func loadProgram(repo, verifDir string) (*Program, error) {
@@ -92,6 +93,9 @@ func loadProgram(repo, verifDir string) (*Program, error) {
 	}
 	p.prelude = string(b)
 	p.parsePrelude()
+	if p.lemmas, err = loadSmtLemmas(verifDir); err != nil {
+		return nil, err
+	}
 	return p, nil
 }
 
